@@ -106,6 +106,9 @@ func (p *ProjectionPlan) processProjection(kvp KVPair, ctx *ExecuteCtx) ([]Colum
 		result any
 		err    error
 	)
+	if ctx != nil {
+		ctx.BindRow(kvp.Key)
+	}
 	for i := 0; i < nFields; i++ {
 		have := false
 		if ctx != nil {
